@@ -90,7 +90,7 @@ def run(pid, tier, seed, replay=None):
     mcs = [("sc_quick", "Epoch_sc_q.cfg"), ("wm_quick", "Epoch_wm_q.cfg"), ("relw_quick", "Epoch_relw_q.cfg")]
     if tier == "thorough":
         # the "big" ones (2 readers / 2 accessors + 1 writer, 2 objects: 1.5 M / 2.6 M states) may run out of time on a busy machine
-        mcs += [("relw_wm", "Epoch_relw_wm_q.cfg"), ("sc", "Epoch_sc.cfg"), ("wm", "Epoch_wm.cfg"), ("big_wm", "Epoch_big_wm.cfg"), ("big_sc", "Epoch_big_sc.cfg")]
+        mcs += [("relw_wm_quick", "Epoch_relw_wm_q.cfg"), ("relw", "Epoch_relw.cfg"), ("relw_wm", "Epoch_relw_wm.cfg"), ("sc", "Epoch_sc.cfg"), ("wm", "Epoch_wm.cfg"), ("big_wm", "Epoch_big_wm.cfg"), ("big_sc", "Epoch_big_sc.cfg")]
     mc_timeout = 1700 if tier == "thorough" else 300
     tag0 = json.dumps(dict(re.findall(r"(\w+) \|-> \"(\w+)\"", open(mo_committed).read())), sort_keys=True)
     mc_pool = ThreadPoolExecutor(4)
